@@ -353,3 +353,54 @@ HARNESSES = [
             bounds={"docs per client": "2..3 (4)", "probability, recency": "symbolic reals"}, real_valued=True,
             doc="conflicting ids only refer to ids already emitted by the same client"),
 ]
+
+
+# ------------------------------------------------------------------------------------------------------------------
+# auxiliary: native IEEE floats for the ingest-percentage cut (the solver harness above runs in exact reals)
+# ------------------------------------------------------------------------------------------------------------------
+def ingest_percentage_float_sweep(tier, deadline):
+    """enumeration of concrete runs (NOT solver-decided): real floats, total_bulks vs. the exact rational ceil(all_bulks * p / 100)"""
+    import fractions
+    import math
+    import time as _time
+
+    t0 = _time.time()
+    out = {"name": "ingest_percentage_float_sweep", "kind": "auxiliary enumeration of concrete runs with native IEEE floats", "evaluations": 0, "distinct_nontrivial": 0,
+           "exhaustive": True, "violations": [], "errors": [], "bounds": {"bulks": "1..%d" % (600 if tier == "quick" else 3000), "p": "1..100 in steps of 0.5 (exactly representable), plus 99.9 and 0.1"}}
+    ps = [k / 2 for k in range(1, 201)] + [99.9, 0.1, 33.3]
+    top = 600 if tier == "quick" else 3000
+    for n in range(1, top + 1):
+        corp = [Corpus([DocSet(n, False)])]
+        for p in ps:
+            src = params.PartitionBulkIndexParamSource(corp, 1, 1, p, params.IndexIdConflict.NoConflicts, None, None, None,
+                                                       original_params={"__create_reader": lambda *a: None})
+            src.partition(0, 1)
+            src._init_internal_params()
+            want = math.ceil(fractions.Fraction(n) * fractions.Fraction(p) / 100)
+            out["evaluations"] += 1
+            if src.total_bulks != want and not out["violations"]:
+                out["violations"].append({"inputs": {"bulks": n, "ingest_percentage": p}, "slice": {},
+                                          "failed": ["group stops after %d bulks, ceil(p%% of %d) is %d" % (src.total_bulks, n, want)]})
+        if _time.time() > deadline:
+            out["exhaustive"] = False
+            break
+    out["distinct_nontrivial"] = out["evaluations"]
+    out["wall_s"] = round(_time.time() - t0, 1)
+    return out
+
+
+def _replay_sweep(entry):
+    import fractions
+    import math
+
+    n, p = entry["inputs"]["bulks"], entry["inputs"]["ingest_percentage"]
+    corp = [Corpus([DocSet(n, False)])]
+    src = params.PartitionBulkIndexParamSource(corp, 1, 1, p, params.IndexIdConflict.NoConflicts, None, None, None, original_params={"__create_reader": lambda *a: None})
+    src.partition(0, 1)
+    src._init_internal_params()
+    want = math.ceil(fractions.Fraction(n) * fractions.Fraction(p) / 100)
+    return src.total_bulks == want, "bulks=%d p=%s: total_bulks=%d, exact ceil=%d" % (n, p, src.total_bulks, want)
+
+
+AUX = [ingest_percentage_float_sweep]
+AUX_REPLAY = {"ingest_percentage_float_sweep": _replay_sweep}
